@@ -55,13 +55,24 @@ func NewSession(o SessionOpts) (*Session, error) {
 	} else {
 		extra[filepath.Join(repoDir, "internal/machine/vm/zz_shapes_gen.go")] = []byte("package vm\n\nvar zzShapes = []zzShape{}\n")
 	}
+	var single map[string]bool
+	if len(o.Instrument) > 0 {
+		var abs []string
+		for _, rel := range o.Instrument {
+			abs = append(abs, filepath.Join(repoDir, rel))
+		}
+		var err error
+		if single, err = instrument.SingleValued(repoDir, abs); err != nil {
+			return nil, fmt.Errorf("instrument: %v", err)
+		}
+	}
 	for _, rel := range o.Instrument {
 		p := filepath.Join(repoDir, rel)
 		src, err := os.ReadFile(p)
 		if err != nil {
 			return nil, err
 		}
-		out, n, err := instrument.File(p, src)
+		out, n, err := instrument.File(p, src, single)
 		if err != nil {
 			return nil, fmt.Errorf("instrumenting %s: %v", rel, err)
 		}
